@@ -16,17 +16,16 @@
 //! from a fixed menu, builds the value with `from_json`, calls the real `to_bytes` / `write_into` /
 //! `get_size_hint` / `read_from` (on SliceReader, std::io::Cursor, ReadAdapter and through
 //! `read_from_bytes`) and compares plain values with what the specification computed.
-//! Panics are outcomes.  Scenarios flagged "big" run in a child process under an address-space limit,
-//! so an allocation abort of the code under test is an outcome too and never kills the harness.
+//! Panics are outcomes.  All scenarios run in a forked worker under an address-space limit, so an
+//! allocation abort of the code under test is an outcome too and never kills the harness.
 use std::{
     collections::{BTreeMap, BTreeSet},
     fmt::Debug,
-    io::{BufRead, BufReader, Write},
-    process::{Command, Stdio},
+    io::Write,
 };
 
 use serde_json::{json, Value};
-use wfcommon::util::{bytes_of, catch, json_bytes, read_ndjson, Out};
+use wfcommon::util::{bytes_of, catch, json_bytes, read_ndjson};
 use winter_utils::{
     ByteReader, ByteWriter, Deserializable, DeserializationError, ReadAdapter, Serializable,
     SliceReader,
@@ -527,173 +526,127 @@ fn is_big(sc: &Value) -> bool {
 }
 
 // ---------------------------------------------------------------------------------------------
-// scenarios that reach a huge length prefix: one forked process per scenario
+// Process isolation.  The code under test pre-allocates what a length prefix announces, so a case can
+// abort the process (allocation failure) instead of panicking.  All scenarios therefore run in a forked
+// worker with a 4 GiB address-space limit; the worker publishes the index of the scenario it is running
+// in shared memory; when it dies the parent records the abort as the outcome of that scenario and forks
+// a new worker for the rest.  (One fork per death: forks cost tens of milliseconds in the sandbox.)
 // ---------------------------------------------------------------------------------------------
-const CHILD_AS_LIMIT: u64 = 4 << 30; // DESIGN §11: 4 GiB for small inputs
+const WORKER_AS_LIMIT: u64 = 4 << 30; // DESIGN §11: 4 GiB for small inputs
 
-/// `codec child <file>`: a fresh single-threaded process that forks once per scenario (fork is ~100x
-/// cheaper than spawning the binary again).  The forked process limits its address space, runs the
-/// scenario and reports on stdout; if it dies instead, this process reports the signal and what the
-/// dying process wrote to stderr.
-fn child_main(path: &str) -> i32 {
-    let scenarios = read_ndjson(path);
+#[repr(C)]
+struct Shared {
+    current: u64,
+    evaluations: u64,
+    hint_inexact: u64,
+    mismatches: u64,
+}
+
+fn emit_line(v: &Value) {
     let stdout = std::io::stdout();
-    for (k, row) in scenarios.iter().enumerate() {
-        let idx = row["i"].as_u64().unwrap_or(0) as usize;
-        stdout.lock().flush().unwrap();
+    let mut w = stdout.lock();
+    let _ = writeln!(w, "{}", v);
+    let _ = w.flush();
+}
+
+fn run_isolated(scenarios: &[Value], skip_big: bool) -> Result<(usize, usize, usize, usize, usize), String> {
+    let shared: &mut Shared = unsafe {
+        let p = libc::mmap(std::ptr::null_mut(), std::mem::size_of::<Shared>(), libc::PROT_READ | libc::PROT_WRITE,
+            libc::MAP_SHARED | libc::MAP_ANONYMOUS, -1, 0);
+        if p == libc::MAP_FAILED {
+            return Err("mmap of the shared cell failed".into());
+        }
+        &mut *(p as *mut Shared)
+    };
+    *shared = Shared { current: 0, evaluations: 0, hint_inexact: 0, mismatches: 0 };
+    let n = scenarios.len();
+    let mut start = 0usize;
+    let mut forks = 0usize;
+    let mut aborts = 0usize;
+    while start < n {
+        forks += 1;
         let mut fds = [0i32; 2];
         if unsafe { libc::pipe(fds.as_mut_ptr()) } != 0 {
-            eprintln!("pipe failed");
-            return 2;
+            return Err("pipe failed".into());
         }
+        let _ = std::io::stdout().lock().flush();
         let pid = unsafe { libc::fork() };
         if pid < 0 {
-            eprintln!("fork failed");
-            return 2;
+            return Err("fork failed".into());
         }
         if pid == 0 {
+            // ---- worker ----
             unsafe {
                 libc::close(fds[0]);
                 libc::dup2(fds[1], 2);
                 libc::close(fds[1]);
-                let lim = libc::rlimit { rlim_cur: CHILD_AS_LIMIT, rlim_max: CHILD_AS_LIMIT };
+                let lim = libc::rlimit { rlim_cur: WORKER_AS_LIMIT, rlim_max: WORKER_AS_LIMIT };
                 libc::setrlimit(libc::RLIMIT_AS, &lim);
                 let core = libc::rlimit { rlim_cur: 0, rlim_max: 0 };
                 libc::setrlimit(libc::RLIMIT_CORE, &core);
             }
             let mut st = Stats { evaluations: 0, hint_inexact: 0 };
-            let d = run_one(idx, &row["sc"], &mut st);
-            let mut w = stdout.lock();
-            let _ = writeln!(w, "{}", json!({"end": k, "detail": d, "evals": st.evaluations}));
-            let _ = w.flush();
+            for (i, sc) in scenarios.iter().enumerate().skip(start) {
+                shared.current = i as u64;
+                if skip_big && is_big(sc) {
+                    continue;
+                }
+                if let Some(d) = run_one(i, sc, &mut st) {
+                    shared.mismatches += 1;
+                    emit_line(&json!({"i": i, "ok": false, "detail": d}));
+                }
+                shared.evaluations += st.evaluations as u64;
+                shared.hint_inexact += st.hint_inexact as u64;
+                st = Stats { evaluations: 0, hint_inexact: 0 };
+            }
+            shared.current = n as u64;
             unsafe { libc::_exit(0) };
         }
-        // parent: collect stderr of the forked process, then its status
+        // ---- parent: what the worker wrote to stderr, then how it ended ----
         let mut errtxt = Vec::new();
         unsafe {
             libc::close(fds[1]);
             let mut buf = [0u8; 4096];
             loop {
-                let n = libc::read(fds[0], buf.as_mut_ptr() as *mut libc::c_void, buf.len());
-                if n <= 0 {
+                let k = libc::read(fds[0], buf.as_mut_ptr() as *mut libc::c_void, buf.len());
+                if k <= 0 {
                     break;
                 }
                 if errtxt.len() < 16384 {
-                    errtxt.extend_from_slice(&buf[..n as usize]);
+                    errtxt.extend_from_slice(&buf[..k as usize]);
                 }
             }
             libc::close(fds[0]);
         }
         let mut status = 0i32;
         unsafe { libc::waitpid(pid, &mut status, 0) };
-        let clean = libc::WIFEXITED(status) && libc::WEXITSTATUS(status) == 0;
-        if !clean {
-            let errtxt = String::from_utf8_lossy(&errtxt).to_string();
-            let msg: String = match errtxt.lines().find(|l| l.contains("memory allocation of")) {
-                Some(l) => l.trim().to_string(),
-                None => errtxt.chars().rev().take(300).collect::<String>().chars().rev().collect(),
-            };
-            let signal = if libc::WIFSIGNALED(status) { Some(libc::WTERMSIG(status)) } else { None };
-            let mut w = stdout.lock();
-            writeln!(w, "{}", json!({"died": k, "signal": signal, "stderr": msg})).unwrap();
-            w.flush().unwrap();
+        let cur = shared.current as usize;
+        if libc::WIFEXITED(status) && libc::WEXITSTATUS(status) == 0 && cur == n {
+            break;
+        }
+        if cur >= n {
+            return Err(format!("worker ended abnormally after the last scenario (status {status})"));
+        }
+        let errtxt = String::from_utf8_lossy(&errtxt).to_string();
+        let msg: String = match errtxt.lines().find(|l| l.contains("memory allocation of")) {
+            Some(l) => l.trim().to_string(),
+            None => errtxt.chars().rev().take(300).collect::<String>().chars().rev().collect(),
+        };
+        let signal = if libc::WIFSIGNALED(status) { Some(libc::WTERMSIG(status)) } else { None };
+        let exit = if libc::WIFEXITED(status) { Some(libc::WEXITSTATUS(status)) } else { None };
+        let sc = &scenarios[cur];
+        aborts += 1;
+        shared.mismatches += 1;
+        shared.evaluations += 1;
+        emit_line(&json!({"i": cur, "ok": false, "detail": {"stage": "decode", "ty": desc_name(&sc["ty"]), "reader": "child",
+            "expected": sc["exp"]["t"], "got": "abort", "signal": signal, "exit": exit, "stderr": msg,
+            "exp": exp_summary(&sc["exp"]), "input": short_bytes(&bytes_of(&sc["input"]))}}));
+        start = cur + 1;
+        if forks > n + 1 {
+            return Err("workers keep dying without progress".into());
         }
     }
-    0
-}
-
-/// Runs the risky scenarios in forking children (RISKY_PROCS of them side by side: a fork costs tens of
-/// milliseconds in the sandbox); returns (index, detail) of the mismatches and the number of forks.
-const RISKY_PROCS: usize = 2;
-
-fn run_risky(risky: &[(usize, &Value)], scratch: &str, st: &mut Stats) -> Result<(Vec<(usize, Value)>, usize), String> {
-    if risky.is_empty() {
-        return Ok((Vec::new(), 0));
-    }
-    let per = (risky.len() + RISKY_PROCS - 1) / RISKY_PROCS;
-    let results: Vec<Result<(Vec<(usize, Value)>, usize, usize), String>> = std::thread::scope(|scope| {
-        let handles: Vec<_> = risky
-            .chunks(per)
-            .enumerate()
-            .map(|(c, chunk)| {
-                let file = format!("{scratch}.{c}");
-                scope.spawn(move || {
-                    let r = run_risky_chunk(chunk, &file);
-                    let _ = std::fs::remove_file(&file);
-                    r
-                })
-            })
-            .collect();
-        handles.into_iter().map(|h| h.join().unwrap_or_else(|_| Err("child reader thread panicked".into()))).collect()
-    });
-    let mut out = Vec::new();
-    let mut forks = 0;
-    for r in results {
-        let (list, f, evals) = r?;
-        out.extend(list);
-        forks += f;
-        st.evaluations += evals;
-    }
-    out.sort_by_key(|(i, _)| *i);
-    Ok((out, forks))
-}
-
-fn run_risky_chunk(risky: &[(usize, &Value)], scratch: &str) -> Result<(Vec<(usize, Value)>, usize, usize), String> {
-    let mut out = Vec::new();
-    let mut evals = 0usize;
-    {
-        let f = std::fs::File::create(scratch).map_err(|e| format!("cannot create {scratch}: {e}"))?;
-        let mut w = std::io::BufWriter::new(f);
-        for (i, sc) in risky {
-            serde_json::to_writer(&mut w, &json!({"i": i, "sc": sc})).map_err(|e| e.to_string())?;
-            w.write_all(b"\n").map_err(|e| e.to_string())?;
-        }
-        w.flush().map_err(|e| e.to_string())?;
-    }
-    let exe = std::env::current_exe().map_err(|e| e.to_string())?;
-    let mut child = Command::new(&exe)
-        .args(["codec", "child", scratch])
-        .env("RUST_BACKTRACE", "0")
-        .stdout(Stdio::piped())
-        .stderr(Stdio::inherit())
-        .spawn()
-        .map_err(|e| format!("cannot spawn child: {e}"))?;
-    let mut seen = vec![false; risky.len()];
-    let mut forks = 0usize;
-    {
-        let rd = BufReader::new(child.stdout.take().unwrap());
-        for line in rd.lines() {
-            let line = line.map_err(|e| e.to_string())?;
-            let v: Value = serde_json::from_str(&line).map_err(|e| format!("bad line from child: {e}: {line}"))?;
-            if let Some(k) = v["end"].as_u64() {
-                let k = k as usize;
-                seen[k] = true;
-                forks += 1;
-                evals += v["evals"].as_u64().unwrap_or(0) as usize;
-                if !v["detail"].is_null() {
-                    out.push((risky[k].0, v["detail"].clone()));
-                }
-            } else if let Some(k) = v["died"].as_u64() {
-                let k = k as usize;
-                if seen[k] {
-                    continue; // died after reporting: not the code under test
-                }
-                seen[k] = true;
-                forks += 1;
-                evals += 1;
-                let sc = risky[k].1;
-                out.push((risky[k].0, json!({"stage": "decode", "ty": desc_name(&sc["ty"]), "reader": "child",
-                    "expected": sc["exp"]["t"], "got": "abort", "signal": v["signal"], "stderr": v["stderr"],
-                    "exp": exp_summary(&sc["exp"]), "input": short_bytes(&bytes_of(&sc["input"]))})));
-            }
-        }
-    }
-    let status = child.wait().map_err(|e| e.to_string())?;
-    if !status.success() || seen.iter().any(|x| !x) {
-        return Err(format!("forking child failed: {status:?}, {} of {} scenarios reported",
-            seen.iter().filter(|x| **x).count(), seen.len()));
-    }
-    Ok((out, forks, evals))
+    Ok((shared.evaluations as usize, shared.hint_inexact as usize, shared.mismatches as usize, forks, aborts))
 }
 
 // ---------------------------------------------------------------------------------------------
@@ -714,57 +667,29 @@ pub fn main(args: &[String]) -> i32 {
             println!("{}", json!({"menu": menu_names()}));
             0
         },
-        Some("child") => child_main(&args[1]),
         Some(path) => {
             let skip_big = args.iter().any(|a| a == "--skip-big");
             let scenarios = read_ndjson(path);
-            let mut out = Out::new();
-            let mut st = Stats { evaluations: 0, hint_inexact: 0 };
-            let mut bad = 0usize;
             let mut types = BTreeSet::new();
-            let mut risky: Vec<(usize, &Value)> = Vec::new();
-            for (i, sc) in scenarios.iter().enumerate() {
+            let mut n_big = 0usize;
+            for sc in scenarios.iter() {
                 types.insert(desc_name(&sc["ty"]));
                 if is_big(sc) && !skip_big {
-                    risky.push((i, sc));
+                    n_big += 1;
                 }
             }
-            let scratch = format!("{path}.risky");
-            let n_risky = risky.len();
-            // the child-process cases run on a second thread while this thread replays the others
-            let mut st2 = Stats { evaluations: 0, hint_inexact: 0 };
-            let risky_result = std::thread::scope(|scope| {
-                let h = scope.spawn(|| run_risky(&risky, &scratch, &mut st2));
-                for (i, sc) in scenarios.iter().enumerate() {
-                    if is_big(sc) {
-                        continue;
-                    }
-                    if let Some(d) = run_one(i, sc, &mut st) {
-                        bad += 1;
-                        out.emit(&json!({"i": i, "ok": false, "detail": d}));
-                    }
-                }
-                h.join().unwrap_or_else(|_| Err("child runner thread panicked".into()))
-            });
-            st.evaluations += st2.evaluations;
-            match risky_result {
-                Ok((list, spawns)) => {
-                    for (i, d) in list {
-                        bad += 1;
-                        out.emit(&json!({"i": i, "ok": false, "detail": d}));
-                    }
-                    out.emit(&json!({"summary": true, "scenarios": scenarios.len(), "evaluations": st.evaluations,
-                        "mismatches": bad, "in_child": n_risky, "child_spawns": spawns, "types": types.len(),
-                        "hint_inexact": st.hint_inexact}));
+            match run_isolated(&scenarios, skip_big) {
+                Ok((evaluations, hint_inexact, mismatches, forks, aborts)) => {
+                    emit_line(&json!({"summary": true, "scenarios": scenarios.len(), "evaluations": evaluations,
+                        "mismatches": mismatches, "oversized_prefix_cases": n_big, "worker_forks": forks, "aborts": aborts,
+                        "types": types.len(), "hint_inexact": hint_inexact}));
+                    0
                 },
                 Err(e) => {
-                    out.flush();
                     eprintln!("codec: {e}");
-                    return 2;
+                    2
                 },
             }
-            out.flush();
-            0
         },
         None => {
             eprintln!("usage: wf-serde codec <scenarios.ndjson> [--skip-big] | codec menu");
